@@ -295,7 +295,7 @@ func evalDeser(c *hx.Ctx, in *input, emit bool) *result {
 		c.Count(fmt.Sprintf("outcome:accepted-%s", kind))
 		c.Count(fmt.Sprintf("accepted-sigs:%d", len(tx.Sigs)))
 		oracleAccepted(c, in, tx, consumed, eo, res)
-		if len(consumed) > 200000 {
+		if in.Kind == "big" {
 			out = fmt.Sprintf("(OAccepted %d)", res.hpre)
 		} else {
 			var sg []string
